@@ -321,5 +321,26 @@ pub mod ds {
     {
         assert forall|j: int| 0 <= j < cnt implies gs::fid_ok(g, #[trigger] files_of(m, s, cnt)[j]) by { assert(id_at(s, j) < fileids(m).len()); }
     }
+
+    // --- C07: what db::open leaves on disk
+    /// F is a byte-prefix of some log n2 can write (the quantifier of C07)
+    pub open spec fn log_prefix(f: Seq<u8>) -> bool {
+        (f.len() < 8 ==> f.len() < 4 || f.subrange(0, 4) == crate::vx_utf8("n2db"@))
+        && (f.len() >= 8 ==> f.subrange(0, 8) == signature() && wf_stream(skip(f, 8), 0))
+    }
+    /// the part of F that survives: header + complete records (nothing if the header itself is torn)
+    pub open spec fn kept(f: Seq<u8>) -> Seq<u8> {
+        if f.len() < 8 { signature() } else { f.take(8 + valid_len(skip(f, 8))) }
+    }
+    /// a log ending exactly at a record boundary: later appends are aligned and every later load succeeds
+    pub open spec fn log_complete(c: Seq<u8>) -> bool {
+        c.len() >= 8 && c.subrange(0, 8) == signature() && wf_stream(skip(c, 8), 0) && valid_len(skip(c, 8)) == c.len() - 8
+    }
+    pub proof fn lemma_valid_len_bound(s: Seq<u8>)
+        ensures 0 <= valid_len(s) <= s.len()
+        decreases s.len()
+    {
+        if rec_len(s) > 0 { lemma_valid_len_bound(s.subrange(rec_len(s), s.len() as int)); }
+    }
     }
 }
